@@ -441,28 +441,23 @@ fn run_succ(c: &SuccCase) -> Verdict {
         Some(e)
     };
     let want_k = advance(&c.t, k);
-    let got_nth = match guard(|| x.iter_from().nth(k).map(|i| to_model(i.as_ref()))) {
+    let got_nth = match guard(|| x.iter_adaptor(0, k, 0).remove(0).map(|i| to_model(i.as_ref()))) {
         Ok(v) => v,
         Err(p) => return fail("panic:iterator", format!("{}: nth({}) from {} panicked: {}", fl, k, c.t.short(), p)),
     };
     ensure!(got_nth == want_k, "iter-from:nth", "{}: iterator started at {}: nth({}) = {:?} but {} calls of next() give {:?}", fl, c.t.short(), k, got_nth.as_ref().map(|t| t.short()), k + 1, want_k.as_ref().map(|t| t.short()));
-    let got_skip = lib!("skip", x.iter_from().skip(k).next().map(|i| to_model(i.as_ref())));
+    let got_skip = lib!("skip", x.iter_adaptor(1, k, 0).remove(0).map(|i| to_model(i.as_ref())));
     ensure!(got_skip == want_k, "iter-from:skip", "{}: iterator started at {}: skip({}).next() = {:?}, expected {:?}", fl, c.t.short(), k, got_skip.as_ref().map(|t| t.short()), want_k.as_ref().map(|t| t.short()));
     let step = 1 + k % 9;
-    let got_steps: Vec<Option<Tt>> = lib!("step_by", {
-        let mut it = x.iter_from().step_by(step);
-        (0..3).map(|_| it.next().map(|i| to_model(i.as_ref()))).collect()
-    });
+    let got_steps: Vec<Option<Tt>> = lib!("step_by", x.iter_adaptor(2, 0, step).into_iter().map(|o| o.map(|i| to_model(i.as_ref()))).collect());
     for (j, g) in got_steps.iter().enumerate() {
         let w = advance(&c.t, j * step);
         ensure!(*g == w, "iter-from:step_by", "{}: iterator started at {}: item {} of step_by({}) = {:?}, expected {:?}", fl, c.t.short(), j, step, g.as_ref().map(|t| t.short()), w.as_ref().map(|t| t.short()));
     }
     // two successive nth calls on one iterator (a skip after a skip)
     let got2 = lib!("nth twice", {
-        let mut it = x.iter_from();
-        let a = it.nth(k).map(|i| to_model(i.as_ref()));
-        let b = it.nth(step).map(|i| to_model(i.as_ref()));
-        (a, b)
+        let mut v = x.iter_adaptor(3, k, step).into_iter().map(|o| o.map(|i| to_model(i.as_ref())));
+        (v.next().flatten(), v.next().flatten())
     });
     ensure!(got2.0 == want_k && got2.1 == want_k.as_ref().and_then(|t| advance(t, step + 1)), "iter-from:nth-twice", "{}: iterator started at {}: nth({}) then nth({}) = {:?}", fl, c.t.short(), k, step, (got2.0.as_ref().map(|t| t.short()), got2.1.as_ref().map(|t| t.short())));
     let word_carry = c.t.w.len() >= 2 && c.t.w[0] == !0;
